@@ -29,7 +29,9 @@ class QuaHitList(HitList[QuaHit], QuaNoteList[QuaHit]):
         return QuaHitList(df)
 
     def to_yaml(self):
-        df = self.df.copy()
+        # Only the fields of the format: a frame may carry user columns
+        fields = ("offset", "column", "keysounds")
+        df = self.df.loc[:, [c for c in self.df.columns if c in fields]].copy()
         df.column += 1
         return (
             df.astype(dict(offset=int, column=int))
